@@ -19,9 +19,26 @@ def arr(nested, dtype=np.float64):
     return np.vectorize(unhex, otypes=[np.float64])(a).astype(dtype)
 
 
-def geo(g):
+def relayout(a, kind):
+    """The same logical array in another memory layout (test input construction only)."""
+    if kind == "C" or a.ndim < 2:
+        return np.ascontiguousarray(a)
+    if kind == "F":
+        return np.asfortranarray(a)
+    if kind == "T":             # a .T-style view of an array stored with the first two axes swapped
+        return np.ascontiguousarray(a.swapaxes(0, 1)).swapaxes(0, 1)
+    if kind == "strided":       # every 2nd row / 3rd column of a larger array
+        big = np.zeros((2 * a.shape[0], 3 * a.shape[1]) + a.shape[2:], dtype=a.dtype)
+        big[::2, ::3] = a
+        return big[::2, ::3]
+    if kind == "neg":           # negative strides along both leading axes
+        return np.ascontiguousarray(a[::-1, ::-1])[::-1, ::-1]
+    raise KeyError(kind)
+
+
+def geo(g, layout="C"):
     if g["kind"] == "swath":
-        return geometry.SwathDefinition(lons=arr(g["lons"]), lats=arr(g["lats"]))
+        return geometry.SwathDefinition(lons=relayout(arr(g["lons"]), layout), lats=relayout(arr(g["lats"]), layout))
     return geometry.AreaDefinition("a", "a", "a", g["proj"], g["width"], g["height"], [unhex(v) for v in g["extent"]])
 
 
@@ -87,13 +104,44 @@ def unpack(a, ntgt):
     return out
 
 
+def same_arrays(a, b):
+    if isinstance(a, tuple) != isinstance(b, tuple):
+        return "return kind"
+    if not isinstance(a, tuple):
+        a, b = (a,), (b,)
+    if len(a) != len(b):
+        return "number of arrays"
+    for n, (x, y) in enumerate(zip(a, b)):
+        if np.shape(x) != np.shape(y):
+            return "shape of output %d" % n
+        mx, my = np.ma.getmaskarray(x), np.ma.getmaskarray(y)
+        if not np.array_equal(mx, my):
+            return "mask of output %d" % n
+        dx, dy = np.asarray(np.ma.getdata(x), dtype=np.float64), np.asarray(np.ma.getdata(y), dtype=np.float64)
+        ok = (dx == dy) | ((dx != dx) & (dy != dy)) | mx
+        if not np.all(ok):
+            i = int(np.argmin(ok.ravel()))
+            return "output %d element %d: %r vs %r" % (n, i, float(dx.ravel()[i]), float(dy.ravel()[i]))
+    return None
+
+
 def run_case(c):
-    src, tgt = geo(c["src"]), geo(c["tgt"])
+    out = run_case_layout(c, c.get("layout", "C"), c.get("coord_layout", "C"), True)
+    return out
+
+
+def run_case_layout(c, layout, coord_layout, primary):
+    src, tgt = geo(c["src"], coord_layout), geo(c["tgt"], coord_layout)
     dtype = np.dtype(c["dtype"])
-    data = arr(c["data"], dtype)
+    data = relayout(arr(c["data"], dtype), layout)
     if c.get("mask") is not None:
-        data = np.ma.array(data, mask=np.array(c["mask"], dtype=bool))
+        data = np.ma.array(data, mask=relayout(np.array(c["mask"], dtype=bool), layout))
+    data_before = np.array(np.ma.getdata(data), copy=True)
+    mask_before = np.array(np.ma.getmaskarray(data), copy=True)
     radius = unhex(c["radius"])
+    if c.get("radius_int"):
+        radius = int(radius)
+    epsilon = unhex(c.get("epsilon", 0.0))
     k = c["k"]
     fill = None if c["fill"] is None else unhex(c["fill"])
     if fill is not None and dtype.kind == "i":
@@ -106,6 +154,8 @@ def run_case(c):
     out["tgt_lonlat"] = [[hx(a), hx(b)] for a, b in zip(np.ravel(tlon), np.ravel(tlat))]
     ntgt = len(out["tgt_lonlat"])
     kw = dict(neighbours=k, reduce_data=c["reduce_data"], segments=c.get("segments"))
+    if epsilon > 0:
+        kw["epsilon"] = epsilon
     vin, vout, index, dist = kd_tree.get_neighbour_info(src, tgt, radius, **kw)
     out["valid_in"] = [int(bool(v)) for v in vin]
     out["valid_out"] = [int(bool(v)) for v in vout]
@@ -160,6 +210,20 @@ def run_case(c):
         out["ret_len"] = 1
         out["res"] = unpack(res, ntgt)
     out["res_dtype"] = str(np.asarray(np.ma.getdata(res[0] if isinstance(res, tuple) else res)).dtype)
+    # caller's arrays untouched?
+    same_data = np.array_equal(data_before, np.asarray(np.ma.getdata(data)), equal_nan=(data_before.dtype.kind == "f"))
+    if not same_data or not np.array_equal(mask_before, np.ma.getmaskarray(data)):
+        out["input_mutated"] = "data array" if not same_data else "mask"
+    if not primary:
+        out["_raw"] = res
+        return out
+    # the same logical input in C-contiguous arrays must give the same output
+    if layout != "C" or coord_layout != "C":
+        ref = run_case_layout(c, "C", "C", False)
+        diff = same_arrays(res, ref["_raw"])
+        out["same_as_c"] = diff is None
+        if diff is not None:
+            out["layout_diff"] = diff
     return out
 
 
